@@ -113,6 +113,20 @@ def pipeStreamOutcome (m : SMethod) (lvl rid : Bytes) (s : StreamScript) (input 
   let r := serveStream m lvl rid s input
   { dispatched := true, respError := r.streams.any (fun st => hasExc st.batches), handlerErr := r.handlerErr.isSome }
 
+/-- Cancellation of the context given to `Serve`, noticed by `serveStream` at the top of its
+lockstep loop (`if err := ctx.Err(); err != nil { break }`) before input batch `n` would be read:
+the loop is left exactly as if the client had closed its input there — output stream closed with a
+plain end-of-stream, rest of the input drained, `streamErr` untouched (nil). -/
+def cancelServeAt (n : Option Nat) (input : InputStream) : InputStream :=
+  match n with
+  | some k => { input with batches := input.batches.take k }
+  | none => input
+
+/-- A pipe stream call during whose turn `k` (if it is reached) the serve context is cancelled. -/
+def pipeStreamCancelledOutcome (m : SMethod) (lvl rid : Bytes) (s : StreamScript) (input : InputStream)
+    (k : Nat) : CallOutcome :=
+  pipeStreamOutcome m lvl rid s (cancelServeAt (some (k + 1)) input)
+
 /-- Unknown method: answered with an error stream before any hook runs (`serveOne`, HTTP 404). -/
 def unknownMethodOutcome : CallOutcome := { dispatched := false, respError := true, handlerErr := false }
 
